@@ -11,7 +11,7 @@
 
 /* fault injection (h_cred `pfail=<k>`): the k-th primitive call of the current request fails.  0 = never (the Lean twins have
  * no failing primitive; streams that use this are judged by the property oracle alone). */
-int toy_fail_at = 0, toy_calls = 0;
+__thread int toy_fail_at = 0, toy_calls = 0;     /* per thread: the request harness runs _job_exec on its own thread; the multi-threaded harness (C11, TSan) must not share a counter */
 #define TOY_TICK(failval) do { if (++toy_calls == toy_fail_at) return (failval); } while (0)
 
 /* ---------------------------------------------------------------- MAC */
